@@ -51,7 +51,8 @@ RoundTripJSON == picked => JsonRT(FALSE)
 RoundTripXML == picked => XmlRT
 
 Classes == {"tree", "either", "error", "open"}
-IsFull == Cardinality(si) <= MutMax /\ tree \in FullTrees(si)
+\* (items beyond SizedFullMax: the largest full tree only, as the generator does)
+IsFull == Cardinality(si) <= MutMax /\ tree \in FullTrees(si) /\ ((\A i \in si : i <= SizedFullMax) \/ tree = BigTree(si))
 JMutOK(rfc) ==
   LET doc == EncJ(rfc, Sn, tree) IN
   /\ \A m \in TokDrops(JToks(doc)) : ~JParse(m).ok
@@ -87,7 +88,7 @@ ShapesOK ==
         /\ p.ok /\ ~p.trailing /\ o.cls \in Classes
         /\ o.cls \in {"tree", "either"} => Conforms(Sn, o.t) = "" /\ NotAltered(Sn, o.t, XLitsOf(p.e))
 MutantsShape == (picked /\ Cardinality(si) <= MutMax /\ FullTrees(si) # {} /\ tree = BigTree(si)) => ShapesOK
-MutantsNs == (picked /\ Cardinality(si) <= MutMax /\ FullTrees(si) # {} /\ tree = BigTree(si)) => XNsOK
+MutantsNs == (picked /\ Cardinality(si) <= MutMax /\ FullTrees(si) # {} /\ NsGrid(si) /\ tree = BigTree(si)) => XNsOK
 MutantsRFC == (picked /\ IsFull) => JMutOK(TRUE)
 MutantsJSON == (picked /\ IsFull) => JMutOK(FALSE)
 MutantsXML == (picked /\ IsFull) => XMutOK
